@@ -109,7 +109,7 @@ REGISTRY = {
         undecided_clauses=["reduce_size / Memory.clear crash points: eviction only removes (rmtree prefix states satisfy CI); K3 is the one crash state that breaks the store invariant"],
     ),
     "C11": dict(
-        packs=["store", "mem"], level="proof",
+        packs=["store", "mem", "c18"], level="proof",
         replay=dict(script="replay/c11.py", args=["{seed}", "3", "3", "200"], timeout=900),
         bounded=[dict(name="threads-and-processes-stress", script="replay/c11.py", args=["{seed}", "3", "3", "200"],
                       bound="3 threads + 3 processes x 200 operations on one cache directory (calls with 7 argument values, 8% reduce_size, 3% clear); "
@@ -118,7 +118,7 @@ REGISTRY = {
                  "(its thread id and pid) are untouched and every visible result file is complete (the guarantee proved for every writer in this pack)",
                  "an open file descriptor keeps reading the old file after replace/unlink (POSIX)"],
         assumptions=["atomic steps are the file-system primitives; rmtree and in-place rewriting are sequences of steps", "mmap_mode is None",
-                     "get_items / enforce_store_limits tolerate concurrent removal through their except OSError clauses (exercised by the bounded stress only)"],
+                     "get_items is under contract in pack c18 (no exception escapes whichever getatime/getsize fails; shape-bounded to <= 2 listed files per entry); enforce_store_limits swallows OSError of each removal (pack c18)"],
         undecided_clauses=["no schedule is enumerated: the adversary is the rely relation (any number of other users)",
                            "two racing clearers may see FileNotFoundError from rm_subdirs (outside the property: it is about calls of cached functions)"],
     ),
@@ -229,7 +229,7 @@ REGISTRY = {
                  ),
         ],
         trusted=["list.sort(key=) is a stable ascending permutation (CPython)", "List.Perm.sum_eq (sum invariant under permutation)"],
-        assumptions=["get_items() sizes are >= 0", "boundary convention: an item accessed exactly age_limit ago is evicted (as the code does)"],
+        assumptions=["boundary convention: an item accessed exactly age_limit ago is evicted (as the code does)"],
         undecided_clauses=["'surviving entries stay loadable and evicted ones are recomputed on demand' is carried by C05/C02 contracts, not here"],
     ),
 }
@@ -369,7 +369,7 @@ MANIFEST_TEXT = {
              "_get_items_to_delete returns exactly the shortest prefix of the stable LRU order meeting byte, item and age limits, "
              "for every inventory (any length, ties, zero sizes) and every limit combination; enforce_store_limits clears exactly "
              "those paths and swallows OSError; reduce_size delegates once with the same arguments or does nothing.",
-        note="Assumed: list.sort is a stable ascending permutation and sums are permutation-invariant; get_items sizes >= 0; "
+        note="Assumed: list.sort is a stable ascending permutation and sums are permutation-invariant; get_items sizes >= 0 is proved (FileSystemStoreBackend.get_items, os.path.getsize >= 0 assumed); "
              "datetimes/timedeltas as reals; memstr_to_bytes only bounded-checked natively (integer literals exhaustively to 3000); "
              "clear_location (rmtree) external. Native small-scope search is a replay aid, not counted as proof.",
     ),
